@@ -144,6 +144,23 @@ func (p *MetadataPersister) MoveHeader(ctx context.Context, oldName string, newN
 	newName = p.getSanitizedPath(ctx, newName)
 	oldName = p.getSanitizedPath(ctx, oldName)
 
+	// A row which already has the new name (i.e. a tombstone) would violate the primary key; the moved row replaces it
+	if _, err := queries.Raw(
+		fmt.Sprintf(
+			`delete from %v where %v = ? and ? != ? and exists (select 1 from %v where %v = ?);`,
+			models.TableNames.Headers,
+			models.HeaderColumns.Name,
+			models.TableNames.Headers,
+			models.HeaderColumns.Name,
+		),
+		newName,
+		newName,
+		oldName,
+		oldName,
+	).ExecContext(ctx, p.sqlite.DB); err != nil {
+		return err
+	}
+
 	// We can't do this with `dbhdr.Update` because we are renaming the primary key
 	n, err := queries.Raw(
 		fmt.Sprintf(
